@@ -30,6 +30,14 @@ def check_doc(acc, job, with_key=True):
     if errs:
         acc.violation(Viol('well-formed', 'import-errors', case, 'no errors', [e.encoding for e in errs][:4]))
         return
+    # start from a non-initial process state: filtered / other-encoding exports first (a cache keyed too coarsely would leak into the default export)
+    if job[2] % 2 == 0:
+        try:
+            kp.dumps(doc, exclude={kp.TokenCategory.DECORATION})
+            kp.dumps(doc, include={kp.TokenCategory.PITCH, kp.TokenCategory.BARLINES}, encoding=kp.Encoding.bEkern)
+            acc.count('transitions', 2)
+        except Exception:
+            pass
     for enc, E in (('ekern', kp.Encoding.eKern), ('kern', None)):
         try:
             out = kp.dumps(doc, encoding=E) if E else kp.dumps(doc)
